@@ -269,7 +269,10 @@ impl Prop for C04 {
         tier.pick(3_000, 400_000)
     }
     fn strategy(tier: Tier) -> BoxedStrategy<Case> {
-        (bf_case(params(tier), 50), area_s()).prop_map(|(base, area2)| Case { base, area2 }).boxed()
+        // with building needs (DEMANDA lines, negative ones included): they have a per-m2 form too
+        let mut p = params(tier);
+        p.with_needs = true;
+        (bf_case(p, 50), area_s()).prop_map(|(base, area2)| Case { base, area2 }).boxed()
     }
     fn describe(c: &Case) -> Value {
         let mut v = c.base.describe();
